@@ -456,8 +456,8 @@ def _relp(v, d):
 
 # ---- family T3: three search paths ---------------------------------------------------------------------------------------------------
 # each of s1, s2, s3 holds one entry of a reduced alphabet (regular __init__, two different namespace-portion modules, a regular sub-package): 64 layouts,
-# among them namespace packages of three portions and regular packages shadowing two later portions.  Same two oracles (order independence; CPython's finders).
-T3_ENTRIES = ["init", "ns-portion", "m.py", "sub/init"]
+# 125 with the pkgutil-style __init__; among them namespace packages of three portions and regular packages shadowing two later portions.  Same two oracles (order independence; CPython's finders).
+T3_ENTRIES = ["init", "ns-portion", "m.py", "sub/init", "pkgutil-ns"]  # (pkgutil-ns: a declared pkgutil-style portion followed by one or two undeclared ones)
 
 
 def run_three_paths(griffe, acc):
@@ -468,7 +468,9 @@ def run_three_paths(griffe, acc):
             sandbox.write_tree(d, files)
             paths = [os.path.join(d, f"s{i}") for i in (1, 2, 3)]
             ref = cpython_walk(d, paths, "p")
-            want = {k: ([os.path.realpath(x) for x in v["locations"]] if v["namespace"] else os.path.realpath(v["origin"])) for k, v in ref.items()}
+            # (how a pkgutil-style package object itself is modelled -- portions, no __init__ contents -- is Griffe's choice: its submodules are judged)
+            skip = {k for k, v in ref.items() if v.get("pkgutil")}
+            want = {k: ([os.path.realpath(x) for x in v["locations"]] if v["namespace"] else os.path.realpath(v["origin"])) for k, v in ref.items() if k not in skip}
             seen = {}
             for order_name, order in (("ascending", listing.ascending), ("descending", listing.descending)):
                 for form in ("name", "path-1", "path-2", "path-3"):
@@ -480,7 +482,7 @@ def run_three_paths(griffe, acc):
                     except Exception as e:  # noqa: BLE001
                         acc.violation(f"three-paths/raise/{type(e).__name__}/{'by-name' if form == 'name' else 'by-path'}", f"layout {combo}: load({form}) raised {e!r}", cd, None, size=3)
                         continue
-                    got = {k: ([os.path.realpath(x) for x in t["filepath"]] if isinstance(t["filepath"], list) else os.path.realpath(t["filepath"])) for k, t in tree_of(mod, d).items()}
+                    got = {k: ([os.path.realpath(x) for x in t["filepath"]] if isinstance(t["filepath"], list) else os.path.realpath(t["filepath"])) for k, t in tree_of(mod, d).items() if k not in skip}
                     seen[(order_name, form)] = got
                     acc.states += 1
                     acc.traces += 1
